@@ -503,6 +503,27 @@ class World:
             await (time + d)
         self.log(a, "sleep-", d)
 
+    async def op_thread_probe(self, a, op):
+        """A helper thread started from inside an activity (optionally running in a copy of the
+        activity's context, as `asyncio.to_thread` and similar executors do) looks for a
+        simulation: there is none in that thread."""
+        import threading
+        import contextvars
+        seen = []
+
+        def probe():
+            try:
+                seen.append(("sees", time.now))
+            except RuntimeError:
+                seen.append(("none", None))
+        if op.get("ctx"):
+            thread = threading.Thread(target=contextvars.copy_context().run, args=(probe,))
+        else:
+            thread = threading.Thread(target=probe)
+        thread.start()
+        thread.join()
+        self.log(a, "thread_probe", bool(op.get("ctx")), seen[0][0] if seen else "?")
+
     async def op_postpone(self, a, op):
         for _ in range(op.get("k", 1)):
             await instant
